@@ -1,7 +1,7 @@
 (* C13 — Generic header parameter rules are enforced identically on encode and decode.
    Statements only (copied from coq/theories by bin/mkprops); each proof is `exact <lemma>`. *)
 From Coq Require Import Ascii String ZArith List Bool Permutation.
-From GoCose Require Import Bytes Cbor CborProofs Res GoVal Obs Ecdsa EcdsaProofs Fx Headers Enc Dec Msg HashEnv Key SigVer Run TbsProofs FlowProofs DecProofs KeyProofs HdrProofs EncProofs EncCanon NoPanic Effects MoreProofs KeyCbor EncDec HdrRoundTrip WireLeg RulesTie HeWire.
+From GoCose Require Import Bytes Cbor CborProofs Res GoVal Obs Ecdsa EcdsaProofs Fx Headers Enc Dec Msg HashEnv Key SigVer Run TbsProofs FlowProofs DecProofs KeyProofs HdrProofs EncProofs EncCanon NoPanic Effects MoreProofs KeyCbor EncDec HdrRoundTrip WireLeg RulesTie HeWire ModesTie Bignum FixedPoint ClearedForm CastAlg.
 From GoCose.Gen Require Import Generated.
 Import ListNotations.
 Open Scope Z_scope.
@@ -127,8 +127,8 @@ Theorem C13_protected_roundtrip :
   forall l pb,
   l <> [] -> simple (GMap l) = true -> (forall k v, entry_in k v l -> okval v) ->
   enc_protected (Some l) = Acc pb ->
-  (forall m, enc_hmap l = Acc m -> within_limits m) ->
-  exists m dl, enc_hmap l = Acc m /\ pb = enc_bstr m /\
+  (forall m, enc_hmap true l = Acc m -> within_limits m) ->
+  exists m dl, enc_hmap true l = Acc m /\ pb = enc_bstr m /\
                unmarshal_protected pb = Acc (cast_alg dl) /\ hrel l dl /\ validate_params dl true = true.
 Proof. exact protected_roundtrip. Qed.
 Print Assumptions C13_protected_roundtrip.
